@@ -135,6 +135,32 @@ CHECKS = {
         note="trusted: vmc/xsdref.py (own XSD 1.1 lexical/value reference, integer arithmetic); timezoned and un-timezoned values not compared with each other"),
 }
 
+CHECKS.update({
+    "C13": dict(
+        category="exploration", engine="E1+G-xsd", design_ref="DESIGN.md 2.5 (G-xsd), 3/C13",
+        technique="bounded-exhaustive enumeration of hidden regular models x sample-document sets, generator run on the samples alone, strict re-parse and infoset / JSON-value comparison of every sample",
+        text=("XML: every hidden regular model (G-xsd base + <= 1 (thorough 2) of 22 structure features, canonical value spellings) x every set of 1-3 (thorough up to 4) libxml2-validated instance documents with <= 2 "
+              "(thorough 3) non-minimal answers in total; the schema is discarded and classes are generated from the samples alone. JSON: every hidden key->kind model (<= 2 levels, <= 2 keys per object, 9 kinds) "
+              "x every set of 1-3 distinct documents (keys present / absent / null, arrays of 0-2 items). Every sample must parse strictly into the generated root class and re-serialize to the same infoset / JSON value."),
+        note="stand-ins for jinja2/toposort/click/ruff; JSON comparison modulo key order, explicit nulls and empty arrays; two open known findings (merged samples lose sequence groups; nil in one sample loses values in the others)"),
+    "C16": dict(
+        category="exploration", engine="E1+G-dtd", design_ref="DESIGN.md 3/C16",
+        technique="bounded-exhaustive enumeration of generated DTDs x generator option sets x DTD-valid instance documents, with libxml2 as DTD validator and expat+libxml2 as infoset oracle",
+        text=("Every G-dtd DTD (base + <= 2 of 41 features: EMPTY / ANY / #PCDATA / mixed, sequences and choices with ? * + nesting, every attribute type and default mode, xmlns declarations) x 3 option "
+              "sets (default, compound fields, unnest) x every libxml2-valid instance document with <= 2 (thorough 3) non-minimal answers: generation succeeds, the package imports and binds, the document parses "
+              "strictly, the output has the same elements / attributes / values with DTD defaults and #FIXED values materialised; where repetition is confined to single names (or choices of single names with "
+              "compound fields) order is compared too and the output is re-validated against the DTD."),
+        note="stand-ins for jinja2/toposort/click/ruff; documents carry no DOCTYPE (the parser never reads the DTD); four open known findings (ANY content, compound field for a choice with a sequence branch, xmlns declarations x2)"),
+    "C17": dict(
+        category="exploration", engine="E1+G-wsdl", design_ref="DESIGN.md 3/C17",
+        technique="bounded-exhaustive enumeration of generated WSDL definitions x operations x request / response / fault payloads through a recording transport, judged against an independent reading of the WSDL AST",
+        text=("Every G-wsdl definition (base + <= 2 (thorough 3) deviations: 1-2 (thorough 1-4) operations, document / rpc, style placement, part shapes by element or type, headers, faults, inline / imported "
+              "schemas, namespaces, soapAction and endpoint forms, naming, extra SOAP 1.2 port) x every operation x {service description, request, response, fault} x every payload with <= 2 non-default "
+              "answers: the service class carries style / location / transport / SOAPAction / input / output, the request envelope equals the prescribed infoset, the client posts exactly that payload with the "
+              "required headers and parses the prescribed response or fault."),
+        note="requests is a names-only stand-in: DefaultTransport is not exercised; one-way operations are outside the property; five open known findings"),
+})
+
 NOT_YET = "check not built yet in this session (see DESIGN.md section 8 for the build order)"
 
 
